@@ -273,6 +273,9 @@ pub struct WorldCfg {
 	/// prefer spending old outputs whose MMR sibling leaf is already spent (both leaves of a pair
 	/// spent = data that compaction may remove)
 	pub sibling_bias: bool,
+	/// every block carries one transaction with as many outputs as the block weight allows (10):
+	/// the quickest way to more than 1024 outputs, i.e. to a second chunk of the unspent bitmap
+	pub fat_outputs: bool,
 }
 
 impl WorldCfg {
@@ -294,6 +297,7 @@ impl WorldCfg {
 			boundary_bias: false,
 			fork_near_tip: 0,
 			sibling_bias: false,
+			fat_outputs: false,
 		}
 	}
 }
@@ -391,7 +395,7 @@ impl World {
 		let mut txs = vec![];
 		let mut note = String::new();
 		let late_zone = self.cfg.sibling_bias && height >= 70;
-		if !late_zone && !self.rng.chance(self.cfg.tx_pct, 100) {
+		if !late_zone && !self.cfg.fat_outputs && !self.rng.chance(self.cfg.tx_pct, 100) {
 			return (txs, note);
 		}
 		let ledger = self.blocks[parent].ledger.clone();
@@ -408,14 +412,18 @@ impl World {
 			let horizon = global::cut_through_horizon() as u64;
 			pool.sort_by_key(|o| (!live.contains(&(o.leaf ^ 1)) && o.height + horizon < height) as u8);
 		}
+		if self.cfg.fat_outputs {
+			// the largest output goes last (popped first): it always covers the fee of an 11-output tx
+			pool.sort_by_key(|o| o.value);
+		}
 		let mut nrd_used: Vec<CommitKey> = vec![];
-		let n_txs = self.rng.range(1, self.cfg.max_txs as u64) as usize;
+		let n_txs = if self.cfg.fat_outputs { 1 } else { self.rng.range(1, self.cfg.max_txs as u64) as usize };
 		// outputs created by earlier txs of this block, spendable by later ones (cut-through)
 		let mut fresh: Vec<OutInfo> = vec![];
 		// weight budget: block max weight 250, coinbase = 21+3
 		let mut weight_left: i64 = global::max_block_weight() as i64 - 30;
 		for _ in 0..n_txs {
-			let n_in = self.rng.range(1, 2) as usize;
+			let n_in = if self.cfg.fat_outputs { 1 } else { self.rng.range(1, 2) as usize };
 			let mut ins = vec![];
 			for _ in 0..n_in {
 				if !fresh.is_empty() && self.rng.chance(1, 3) {
@@ -432,7 +440,7 @@ impl World {
 					*self.stats.entry("coinbase_spent_exactly_at_maturity".into()).or_insert(0) += 1;
 				}
 			}
-			let n_out = self.rng.range(1, 3) as usize;
+			let n_out = if self.cfg.fat_outputs { 10 } else { self.rng.range(1, 3) as usize };
 			let w = (n_in as i64) + 21 * (n_out as i64) + 3;
 			if w > weight_left {
 				break;
